@@ -123,6 +123,20 @@ RES = {
     "UNK": [("X", "C")],
 }
 SEGS = ["", "A", "B", "SEG1"]
+with open(os.path.join(os.path.dirname(os.path.dirname(os.path.dirname(os.path.abspath(__file__)))), "corpus", "C12",
+                       "residue_reference.json")) as _fh:
+    RESREF = json.load(_fh)          # hand-kept snapshot of the documented water names and the amino-acid code table
+# names that collide with names of the generated source / the evaluation namespace
+RES["re"] = [("re", "C"), ("atom", "N"), ("CA", "C")]
+RES["atom"] = [("atom", "C"), ("self", "O"), ("np", "N")]
+
+
+def res_atoms(rn):
+    if rn in RES:
+        return RES[rn]
+    if rn in RESREF["water"]:
+        return [("O", "O"), ("H1", "H"), ("H2", "H")]
+    return [("N", "N"), ("CA", "C"), ("C", "C"), ("O", "O")]
 
 
 def topo_spec(chains):
@@ -133,12 +147,12 @@ def topo_spec(chains):
         rs = []
         for (rn, seq, seg) in ch:
             rs.append({"name": rn, "resSeq": seq, "segment_id": seg,
-                       "atoms": [{"name": a, "element": e} for a, e in RES[rn]]})
+                       "atoms": [{"name": a, "element": e} for a, e in res_atoms(rn)]})
             # bonds: a chain through the residue
-            for i in range(len(RES[rn]) - 1):
+            for i in range(len(res_atoms(rn)) - 1):
                 if (n + i) % 3 != 2:
                     spec["bonds"].append([n + i, n + i + 1])
-            n += len(RES[rn])
+            n += len(res_atoms(rn))
         spec["chains"].append({"residues": rs})
     return spec
 
@@ -152,11 +166,26 @@ def fixed_topologies():
     small = topo_spec([[("GLY", 1, "A")], [("HOH", 2, "B"), ("NA", 2, "B")]])
     signed = topo_spec([[("ALA", -5, "A"), ("GLY", -1, "A"), ("GLY", 0, "A"), ("SER", 3, "A"), ("GLY", 8, "A"), ("GLY", 8, "A")],
                         [("HOH", 9, ""), ("NA", -5, "")]])
-    return [mixed, allprot, solvent, small, signed]
+    collide = topo_spec([[("re", 1, "atom"), ("atom", 2, "re")], [("ALA", 1, "self"), ("HOH", 3, "atom")]])
+    return [mixed, allprot, solvent, small, signed, collide]
+
+
+def residue_topologies(rng, quick):
+    """every documented water name (always) and reference protein residue names (all of them in the thorough tier, a
+    rotating sample in the quick tier) as residues of extra topologies"""
+    waters = topo_spec([[(w, i + 1, "W") for i, w in enumerate(RESREF["water"])], [("ALA", 1, "A"), ("NA", 2, "A")]])
+    names = list(RESREF["protein"])
+    rng.shuffle(names)
+    if quick:
+        names = names[:60]
+    out = [waters]
+    for k in range(0, len(names), 110):
+        out.append(topo_spec([[(nm, j % 50, "P") for j, nm in enumerate(names[k:k + 110])], [("HOH", 1, "")]]))
+    return out
 
 
 def random_topology(rng):
-    names = list(RES)
+    names = [n for n in RES if n not in ("re", "atom")]
     chains = []
     for _ in range(rng.randint(1, 3)):
         ch = []
@@ -208,7 +237,16 @@ NUM_KW = ["index", "n_bonds", "residue", "resSeq", "resid", "resi", "chainid", "
 AND_SP, OR_SP, NOT_SP = ["and", "&&"], ["or", "||"], ["not ", "!"]
 CMP_SP = ["<", "lt", "==", "eq", "<=", "le", "!=", "ne", ">=", "ge", ">", "gt"]
 STR_LITS = ["CA", "C", "N", "O", "H", "H1", "CB", "OW", "NA", "CL", "ALA", "GLY", "SER", "HOH", "SOL", "LIG", "ACE",
-            "A", "B", "G", "S", "SEG1", "ZZ", "Na", "Ca", "X", "to", "name", "protein", "None", "True"]
+            "A", "B", "G", "S", "SEG1", "ZZ", "Na", "Ca", "X", "to", "name", "protein", "None", "True",
+            "atom", "re", "self", "np"]
+# bare words that collide with names of the generated source, the evaluation namespace, Python builtins and constants:
+# as literals they must be plain strings (quoted or not)
+NAMESPACE_WORDS = ["atom", "re", "ast", "np", "numpy", "self", "topology", "mdtraj", "md", "print", "id", "type", "str", "int",
+                   "list", "abs", "dir", "eval", "exec", "open", "vars", "globals", "object", "Ellipsis", "NotImplemented",
+                   "None", "True", "False", "index", "residue", "element", "match", "case"]
+NAMESPACE_CONTEXTS = ["name {w}", "resname {w}", "segname {w}", "element {w}", "name == {w}", "{w} == resname", "name CA {w} O",
+                      "resname {w} ALA", "{w}", "({w})", "name =~ {w}", "{w} =~ 'C.*'", "resname != {w}", "name {w} to {w}",
+                      "not name {w}", "protein and name {w}", "segment_id {w} or water", "name lt {w}", "resid {w}", "{w} and water"]
 NUM_LITS = ["0", "1", "2", "3", "5", "7", "10", "12", "0.5", "1.5", "2.", ".5", "12.5", "14", "16", "1.0", "00", "40.078"]
 PATTERNS = ["C.*", "C", "[CN]A?", "H[0-9]", "(C|N|O)", ".", "[A-C]+", "O.?", "[^C].*", "A|G", "H.*1", "(CA|CB)", "S.+",
             "HO*H", "X?", ".."]
@@ -612,7 +650,7 @@ def run_cases(ctx, topo_specs, cases, sentinel=True):
     dcases = [(clist([coq_atom(a) for a in atoms], str), clist([coq_derived(a) for a in atoms], str))
               for atoms in atoms_by_topo]
     bad, errs = ctx.coq_mismatches(["MD.Select.Syntax", "MD.Select.Model", "MD.Select.Run", "MD.Gen.SelectTables"],
-                                   ("list atom", "list (list value)"), "vll_eqb", "(map (derived gen_cfg))", dcases)
+                                   ("list atom", "list (list value)"), "vll_eqb", "(map (derived (documented gen_cfg)))", dcases)
     if errs:
         ctx.break_("correspondence:coqc-evaluation(derived)", "\n".join(errs))
         return
@@ -624,7 +662,7 @@ def run_cases(ctx, topo_specs, cases, sentinel=True):
                  "documented derivation", {"topo_spec": spec, "s": "protein", "stream": "derived"},
                  observed=[{k: a[k] for k in ("name", "resname", "is_backbone", "is_sidechain", "is_protein", "is_water",
                                               "code")} for a in atoms_by_topo[ti]],
-                 expected="Coq: derived gen_cfg", tags={"kind": "derived_attributes"})
+                 expected="Coq: derived (documented gen_cfg)", tags={"kind": "derived_attributes"})
     # 1. select_expression evaluates to the same thing (implementation only)
     outs = []
     for c, r in zip(cases, results):
@@ -757,10 +795,12 @@ def build_cases(ctx):
     rng = ctx.rng
     quick = ctx.tier == "quick"
     specs = fixed_topologies() + [random_topology(rng) for _ in range(3 if quick else 8)]
+    n_general = len(specs)
+    specs += residue_topologies(rng, quick)
     cases = []
 
     def add(s, stream, topo=None, malformed=None):
-        cases.append({"topo": rng.randrange(len(specs)) if topo is None else topo, "s": s, "stream": stream,
+        cases.append({"topo": rng.randrange(n_general) if topo is None else topo, "s": s, "stream": stream,
                       "malformed": malformed})
 
     # historical witnesses first
@@ -799,6 +839,17 @@ def build_cases(ctx):
             add(gen_malformed(rng, kind), "malformed", malformed=kind)
     for s_, klass in lexical_cases(rng, quick):
         add(s_, "lexical", topo=rng.choice([0, 4]), malformed=klass)
+    for w in NAMESPACE_WORDS:
+        for c in (NAMESPACE_CONTEXTS if (not quick or w in ("atom", "re")) else rng.sample(NAMESPACE_CONTEXTS, 4)):
+            for form in ((w, "'%s'" % w, '"%s"' % w) if (not quick or w in ("atom", "re")) else (w, rng.choice(["'%s'", '"%s"']) % w)):
+                add(c.format(w=form), "namespace", topo=rng.choice([5, 5, 0]))
+    # residue-name tables: every documented water name and (rotating) reference protein residue names
+    for ti in range(n_general, len(specs)):
+        names = [r["name"] for ch in specs[ti]["chains"] for r in ch["residues"]]
+        for s_ in ["water", "waters", "is_water", "protein", "is_protein", "backbone", "sidechain", "not water", "not protein",
+                   "rescode A G C X", "code None", "resname %s" % " ".join(rng.sample(names, min(3, len(names)))),
+                   "water and name O", "protein and name CA"]:
+            add(s_, "residue_tables", topo=ti)
     for s in IMPL_ONLY:
         add(s, "impl_only", 0)
     if not quick:
@@ -910,7 +961,8 @@ def correspond(ctx):
     ctx.log("cases:", len(cases))
     run_cases(ctx, specs, cases)
     # sentinel: the model-free oracles on a small budget
-    run_meta(ctx, specs, 80 if ctx.tier == "quick" else 1500)
+    small_specs = [sp for sp in specs if sum(len(r["atoms"]) for c in sp["chains"] for r in c["residues"]) <= 60]
+    run_meta(ctx, small_specs, 80 if ctx.tier == "quick" else 1500)
 
 
 def search(ctx, broken):
